@@ -238,6 +238,20 @@ pub fn drive(log: &mut Log) {
             run_bytes(log, "ex1", &text, &plan);
         }
     }
+    // (a2) every binary body of length l1..=12 (13 thorough): suffix_array only. Equal LMS substrings that
+    //      are longer than the number of LMS positions first exist at body length 11 ("babbbabbbab$").
+    for l in l1..=(if th { 13 } else { 12 }) {
+        for body in all_strings(b"AC", l) {
+            case += 1;
+            if !log.mine(case) {
+                continue;
+            }
+            let mut text = body;
+            text.push(b'$');
+            run_bytes(log, "ex2", &text, &Plan::default());
+        }
+    }
+    log.oblige("exhaustive_binary_12");
     let l2 = if th { 8 } else { 7 };
     for l in 1..l2 {
         for body in all_strings(b"AC$", l) {
@@ -572,6 +586,104 @@ pub fn drive(log: &mut Log) {
             }
             run_big(log, "big16", &text);
             log.oblige("width_boundary_65538");
+        }
+    }
+
+    // (j) few, long, repeated monotone blocks: [prefix] (a^i b^j)^r $ and [prefix] (a^i b^j c^k)^r $.
+    //     The LMS substrings are a^i b^j a (resp. a^i b^j c^k a): long, all equal, and there are only
+    //     about r LMS positions -- so the LMS substrings are longer than the number of LMS positions.
+    {
+        let steps2: &[usize] = if th { &[1, 2, 3, 4, 5, 6, 8, 10, 13, 17, 21, 25] } else { &[1, 2, 3, 5, 8, 13, 20] };
+        let steps3: &[usize] = if th { &[1, 2, 3, 5, 8, 13, 20] } else { &[1, 2, 4, 9] };
+        let rs: &[usize] = if th { &[2, 3, 4, 5, 6] } else { &[2, 3, 4, 6] };
+        let mut fam: Vec<(Vec<usize>, usize, u8)> = vec![];
+        for &i in steps2 {
+            for &j in steps2 {
+                for &r in rs {
+                    for pre in 0..3u8 {
+                        fam.push((vec![i, j], r, pre));
+                    }
+                }
+            }
+        }
+        for &i in steps3 {
+            for &j in steps3 {
+                for &k in steps3 {
+                    for &r in rs {
+                        for pre in [0u8, 3u8] {
+                            fam.push((vec![i, j, k], r, pre));
+                        }
+                    }
+                }
+            }
+        }
+        for (fi, (blk, r, pre)) in fam.iter().enumerate() {
+            case += 1;
+            if !log.mine(case) {
+                continue;
+            }
+            // quick tier: a third of the family (rotating with the seed), and only texts up to 130 symbols
+            let len: usize = blk.iter().sum::<usize>() * r + 2;
+            if !th && ((fi as u64 + seed) % 3 != 0 || len > 130) {
+                continue;
+            }
+            let mut text: Vec<u8> = match pre {
+                1 => vec![b'A'],
+                2 => vec![b'C'],
+                3 => vec![b'G'],
+                _ => vec![],
+            };
+            for _ in 0..*r {
+                for (bi, &cnt) in blk.iter().enumerate() {
+                    for _ in 0..cnt {
+                        text.push(b"ACG"[bi]);
+                    }
+                }
+            }
+            text.push(b'$');
+            run_bytes(log, "blk", &text, &Plan { lcp: fi % 5 == 0, sus: false, samples: vec![] });
+            if blk.iter().sum::<usize>() > r + 1 {
+                log.oblige("lms_substring_longer_than_lms_count");
+            }
+        }
+    }
+
+    // (k) more than 65,536 DISTINCT LMS substrings (names need 32 bits). Closed-form family for
+    //     suffix_array_int: the zigzag text 2m, 1, 2m-1, 2, ..., m+1, m, 0 has pairwise distinct symbols,
+    //     so its suffix array is the inverse permutation, and every small value is an LMS position.
+    for &(m, w) in (if th { &[(70_000usize, 64u32), (66_000, 32)][..] } else { &[(70_000usize, 64u32)][..] }) {
+        case += 1;
+        if !log.mine(case) {
+            continue;
+        }
+        let mut text: Vec<usize> = Vec::with_capacity(2 * m + 1);
+        for j in 0..m {
+            text.push(2 * m - j);
+            text.push(j + 1);
+        }
+        text.push(0);
+        if log.begin("zig", json!({"kind": "zigzag", "m": m})) {
+            log.call("suffix_array_zigzag", json!({ "w": w }), || {
+                let sa = if w == 32 {
+                    suffix_array_int(&text.iter().map(|&x| x as u32).collect::<Vec<u32>>())
+                } else {
+                    suffix_array_int(&text)
+                };
+                json!({"sa": usizes(&sa)})
+            });
+        }
+        log.oblige("more_than_65536_distinct_lms_names");
+    }
+    if th {
+        // the byte API on a long non-repetitive text (about n/3 distinct LMS substrings), plain IsValidSA
+        case += 1;
+        if log.mine(case) {
+            let mut rng = Rng::new(seed, 22, case);
+            let letters: Vec<u8> = (1..=200u8).collect();
+            let mut text = rng.seq(300_000, &letters);
+            text.push(0);
+            run_bytes(log, "longrnd", &text, &Plan::default());
+            log.oblige("long_random_bytes_300k");
         }
     }
 
